@@ -148,7 +148,8 @@ class VM:
 
     def run(self, compiled: CompiledFunction) -> JSValue:
         """Run compiled bytecode and return result."""
-        self.start_time = time.monotonic()
+        if self.start_time is None:
+            self.start_time = time.monotonic()
 
         # Create initial call frame
         frame = CallFrame(
